@@ -578,7 +578,7 @@ func allYoung(op *MOp, s *MState) bool {
 func runCore(args []string) int {
 	prop, in, out := args[0], args[1], args[2]
 	cr := &coreRunner{prop: prop, gw: prop == "C06"}
-	cr.maps = []Mapping{{B: 0, Scale: 1}, {B: 1600000000, Scale: 0.25}, {B: 2147480000, Scale: 1024}}
+	cr.maps = []Mapping{{B: 0, Scale: 1}, {B: 1600000000, Scale: 0.25}, {B: 2147480000, Scale: 1024}, {B: 2300000000, Scale: 1}, {B: 4294900000, Scale: 0.25}}
 	f, err := os.Open(in)
 	if err != nil {
 		fmt.Fprintln(os.Stderr, err)
